@@ -267,15 +267,20 @@ def check_dispatch(ctx, ci, f, hp, hpp, pfun, second):
         if kw.get("metric") != f"self.{hp}":
             probs.append(f"metric is {kw.get('metric')}, not self.{hp}")
         star = [k.value for k in c.keywords if k.arg is None]
-        if len(star) != 1 or not isinstance(star[0], ast.Name):
+        good_forms = (f"dict() if self.{hpp} is None else self.{hpp}", f"{{}} if self.{hpp} is None else self.{hpp}",
+                      f"self.{hpp} if self.{hpp} is not None else dict()", f"self.{hpp} if self.{hpp} is not None else {{}}", f"self.{hpp} or {{}}", f"self.{hpp} or dict()")
+        if len(star) != 1:
             probs.append("the parameter dictionary is not passed as **params")
-        else:
+        elif isinstance(star[0], ast.Name):
             pname = star[0].id
             defs = [s for s in ast.walk(f) if isinstance(s, ast.Assign) and isinstance(s.targets[0], ast.Name) and s.targets[0].id == pname]
-            okd = len(defs) == 1 and norm_src(defs[0].value) in (f"dict() if self.{hpp} is None else self.{hpp}", f"{{}} if self.{hpp} is None else self.{hpp}",
-                                                                  f"self.{hpp} if self.{hpp} is not None else dict()", f"self.{hpp} or {{}}")
+            okd = len(defs) == 1 and norm_src(defs[0].value) in good_forms
             if not okd:
                 probs.append(f"**{pname} is not self.{hpp} (or an empty dict when None)")
+        elif norm_src(star[0]).strip("()") in good_forms or norm_src(star[0]) in good_forms:
+            pass        # the dictionary expression written at the call
+        else:
+            probs.append(f"**{norm_src(star[0])[:60]} is not self.{hpp} (or an empty dict when None)")
     recognised = bool(callb) or bool(pk)
     if probs and not recognised:
         ctx.unrecognised("C11-b", qn, "neither a callable(...) branch nor a scikit-learn pairwise call was found")
